@@ -21,8 +21,11 @@ class Prop(ConnProp):
                   "forced/delayed closes yields at most one DOWN and no abort; a delayed close that fires on a dead or down "
                   "connection is the identity. The proofs need shutdownDispatch = drainShutdownDispatch = queue, which T1 "
                   "re-extracts from the source (the inline call of the upstream code makes the theorem false: F3/F21)")
-    level_note = ("Progress (FIN is eventually sent, forceClose brings DOWN within one iteration) is checked by the oracle on the "
-                  "implementation (deterministic in the stepped harness), not proved.")
+    level_note = ("Progress is proved relative to the loop making iterations: forceClose() => down after ONE iteration with exactly "
+                  "one DOWN; forceCloseWithDelay => down in the iteration that reports the expired timer (one more when called "
+                  "from another thread; tight); shutdown() with nothing to write => FIN in the next iteration. That the test and "
+                  "store of the state word are one atomic step (`gate_atomic`) is extracted; the interleaving of truly concurrent "
+                  "callers with the loop thread is not modelled here (C08's TSan scenario `TcpConnection::mix` exercises it).")
     rule = ("histories of <= 40 operations with shutdown()/forceClose()/forceCloseWithDelay() from the loop thread, another "
             "thread or a callback, at backlogs from 0 to 300000 bytes with scripted EAGAIN stalls, followed/preceded by sends, "
             "peer close, timer firings after destruction; asserts-on/NDEBUG x epoll/poll")
